@@ -2,7 +2,7 @@ HOOKS = {
     "guard": "vm_memory_verif",
     "enable": "RUSTFLAGS=\"--cfg vm_memory_verif\" (set for the harness by /verif/harness/.cargo/config.toml)",
     "baseline_off_cmd": "cd /repo && cargo test --workspace --no-fail-fast --offline",
-    "source_commits": ["be3842d verif hook H1: copy trace", "9dbbbb5 verif hook H2: AtomicU64 stand-in", "d7a8125 + 941d4a8 + 52e524e verif hook H3: emulated Xen ioctls (failure injection, query/disarm)"],
+    "source_commits": ["be3842d verif hook H1: copy trace", "9dbbbb5 verif hook H2: AtomicU64 stand-in", "d7a8125 + 941d4a8 + 52e524e verif hook H3: emulated Xen ioctls (failure injection, query/disarm)", "7dfeb1f verif hook H4: replace scope (is the update mutex held when the new map is stored)"],
     "add_only": True,
 }
 NOT_YET = {}
@@ -20,7 +20,7 @@ META = {
     },
     "C20": {
         "text": "Round trip, wire byte order, equality with native integers and read-back from memory are proved for every width k, every value < 256^k, both byte orders and both host endiannesses "
-                "(13 theorems); the model is tied to endian.rs by exhaustive runs over all 16-bit values for Le16/Be16, structured and random values for the 32/64/size types "
+                "(13 theorems); the model is tied to endian.rs by exhaustive runs over all 16-bit values for Le16/Be16, byte-structured (identical halves, fill patterns, palindromes, zero runs) and random values for the 32/64/size types "
                 "(all 2^32 values for Le32/Be32 in the thorough tier, oracle only), storing through write_obj and reading raw bytes back.",
         "design_ref": "DESIGN.md 6/C20",
         "note": PROOF_NOTE + "The harness host is little-endian: the big-endian half of the statement is covered by the theorems only. to_le/to_be are modelled as identity/byte swap.",
@@ -29,9 +29,9 @@ META = {
     "C01": {
         "text": "Containment of every derived accessor in its parent and in the root, for chains of derivations of ANY depth (induction over the op list), exact acceptance "
                 "conditions of every bounds check (both directions, so > vs >= is pinned), alignment of typed/atomic references, isize bound of arrays, absence of panics, "
-                "and in-bounds-ness of every later raw access are proved (73 theorems). The model is tied to volatile_memory.rs by random derivation chains over roots of size 0..300 "
+                "and in-bounds-ness of every later raw access are proved; the provided typed accessors are also modelled over ANY implementor's get_slice (typedVia: an accessor is handed out only if it is exactly the slice get_slice returned) (75 theorems). The model is tied to volatile_memory.rs by random derivation chains over roots of size 0..300 "
                 "with every base skew and boundary/overflowing operands, on four bitmap flavours, in checked and unchecked builds; an independent containment/alignment/acceptance oracle "
-                "and canary bytes around the root run on the real pointers.",
+                "and canary bytes around the root run on the real pointers; the guest/region-level get_slice/get_host_address run in the gm world; a third-party VolatileMemory whose get_slice comes back short is probed.",
         "design_ref": "DESIGN.md 6/C01",
         "note": PROOF_NOTE + "Not modelled: that the root handed to the unsafe constructors is a live allocation; Rust aliasing/provenance. MmapRegion/GuestRegionMmap/GuestMemory::get_slice are exercised by the gm world (C02/C03).",
         "technique": "Lean 4 induction over derivation chains + differential run against real pointer extents",
@@ -49,9 +49,9 @@ META = {
 META.update({
     "C02": {
         "text": "For every well-formed layout (any number of regions, any sizes, adjacent or with holes, up to the top of the address space) find_region, to_region_addr, address_in_range, "
-                "check_address, checked_offset, last_addr, get_host_address, get_slice and check_range are proved equal to the set-theoretic reading (31 theorems; check_range by induction over the try_access loop). "
+                "check_address, checked_offset, last_addr, get_host_address, get_slice and check_range are proved equal to the set-theoretic reading, last_addr for every iteration order of the regions (33 theorems; check_range by induction over the try_access loop). "
                 "Tied to guest_memory.rs / mmap/mod.rs by an exhaustive small universe (every address 0..25 x every length 0..26 x random small layouts incl. 1-byte regions and holes) and large layouts probed at boundaries, "
-                "on GuestMemoryMmap AND a linear-scan implementation that relies on every provided default; interval-set oracle.",
+                "on GuestMemoryMmap AND a linear-scan implementation that relies on every provided default and keeps its regions in plug order, also after insert/remove histories; interval-set oracle; a hand-written region type ending exactly at 2^64 is probed (this found defect D9, fixed).",
         "design_ref": "DESIGN.md 6/C02", "note": PROOF_NOTE + "binary_search_by_key is a model parameter with its documented contract.",
         "technique": "Lean 4 proof over sorted-disjoint layouts + exhaustive small-universe differential run on two GuestMemory implementations",
     },
@@ -65,13 +65,13 @@ META.update({
     "C05": {
         "text": "Soundness of dirty tracking: for every mutating op through an accessor derived by ANY chain (Tracks invariant proved preserved by every derivation), every changed byte lies on a page that is dirty afterwards, "
                 "for every page size and interleaved resets (ghost-snapshot invariant over histories); failing descriptor reads mark their whole target (44 theorems); and, because every operation stores BEFORE it marks, it stays sound with any number of concurrent harvests between its store and its mark, whereas mark-then-store is refuted by a concrete counter-example (Props/C05h, 45 theorems). "
-                "Tied by slice-world and guest-memory histories with page sizes 1..>size, five bitmap flavours (one of them a probe written against the public traits that snapshots the marked bytes at mark time, so the store/mark ORDER is observed), random data, resets; diff-driven oracle on every region's bitmap.",
+                "Tied by slice-world and guest-memory histories with page sizes 1..>size, tracking bitmaps built directly or grown from empty by enlarge, five bitmap flavours (one of them a probe written against the public traits that snapshots the marked bytes at mark time, so the store/mark ORDER is observed), random data, resets; diff-driven oracle on every region's bitmap.",
         "design_ref": "DESIGN.md 6/C05", "note": PROOF_NOTE + "Raw-pointer/reference writes are exempt by the statement.",
         "technique": "Lean 4 invariant (bitmap offset tracks address) + per-op effect lemmas + differential run with diff-driven oracle",
     },
     "C16": {
         "text": "Precision: a write of n>0 bytes marks exactly the pages overlapping the written window (newly_dirty_iff, page_end_exact), reads/rejected requests mark nothing, PartialBuffer marks exactly the stored prefix (25 theorems). "
-                "Same differential runs as C05 with the oracle comparing the full bitmap both ways after every op.",
+                "Same differential runs as C05 with the oracle comparing the full bitmap both ways after every op (fd sinks that fail included), plus the schedule scenarios of the atomic world (a page must not turn dirty again after a harvest without a write).",
         "design_ref": "DESIGN.md 6/C16", "note": PROOF_NOTE,
         "technique": "Lean 4 exact-mark equations + differential run comparing whole bitmaps",
     },
@@ -98,22 +98,22 @@ META.update({
     "C17": {
         "category": "proof",
         "text": "PARTIAL (kernel mapping of the real gntdev trusted). Guard length = bytes covered and guard pointer = first byte for slices, refs and arrays (full strength after the fix: commit for the array guard); for on-demand Xen mappings the requested window is proved to cover "
-                "every byte of the guard for all page sizes/offsets/lengths and every access sequence leaves no mapping (10 theorems). The correspondence run observes ptr_guard()/ptr_guard_mut() of every accessor kind and "
+                "every byte of the guard for all page sizes/offsets/lengths and every access sequence leaves no mapping; at the system-call level an on-demand access leaves nothing behind and releases nothing twice whether it completes or the device refuses (C17x) (16 theorems). The correspondence run observes ptr_guard()/ptr_guard_mut() of every accessor kind and "
                 "element type in the standard build, and in the xen-feature build (hook H3) runs histories over UNIX, foreign, advance-mapped and on-demand grant regions checking that every touched byte range lies inside a window requested during the op, "
                 "that every window is released, that data lands at file offset ref*page+offset, plus forked probes of the guard-bypassing paths.",
         "design_ref": "DESIGN.md 6/C17", "note": PROOF_NOTE + "Xen half: emulated ioctls (hook H3), not a real Xen host.",
         "technique": "Lean 4 window arithmetic + differential run on guard extents (standard build)",
     },
     "C18": {
-        "text": "Zero-length buffer/slice/object accesses are proved to be successful no-ops at EVERY offset of a container, zero-sized element copies and refs/arrays too, nothing marked (32 theorems; guest-memory layer in C18g once merged). "
-                "Tied by slice- and guest-memory-level runs over mapped, hole, 0 and u64::MAX addresses, empty containers and the three zero-sized element types, in checked and unchecked builds.",
-        "design_ref": "DESIGN.md 6/C18", "note": PROOF_NOTE + "Three defects found here were repaired by fix: commits (see known_findings.json).",
+        "text": "Zero-length buffer/slice/object accesses are proved to be successful no-ops at EVERY offset of a container, zero-sized element copies and refs/arrays too, nothing marked (47 theorems incl. the guest-memory layer, C18g). "
+                "Tied by slice- and guest-memory-level runs over mapped, hole, 0 and u64::MAX addresses, empty containers and the three zero-sized element types, in checked and unchecked builds, and in the xen-feature build (both profiles) with the grant device told to refuse its next request before every zero-length access.",
+        "design_ref": "DESIGN.md 6/C18", "note": PROOF_NOTE + "Four defects found here were repaired by fix: commits (see known_findings.json).",
         "technique": "Lean 4 no-op theorems + differential run with a zero-length oracle at all three layers",
     },
     "C03": {
         "text": "Guest-level write/read/write_slice/read_slice/write_obj/read_obj/store/load are proved, by induction over the try_access loop for every well-formed layout, to behave as one flat sparse byte array: "
                 "count = longest mapped run capped at the buffer, each byte lands in the owning region/offset across region boundaries, InvalidGuestAddress iff the first byte is unmapped, PartialBuffer{expected,completed} otherwise, "
-                "frame, round trip through every route incl. region-level and host pointer, histories refine the flat spec, the wrap-to-0 branch is dead (56 theorems). Tied by mixed histories over touching regions, 1-byte holes, "
+                "frame, round trip through every route incl. region-level and host pointer, histories refine the flat spec; for EVERY layout the walk stops at the last address (never continues at address 0: defect D9, fixed; wrap_before_fix / no_wrap_after_fix) (58 theorems). Tied by mixed histories over touching regions, 1-byte holes, "
                 "regions ending at u64::MAX-1, anonymous and file-backed, on two GuestMemory implementations, with maps derived by insert/remove sharing regions; flat-array oracle re-reading every region after every op.",
         "design_ref": "DESIGN.md 6/C03", "note": PROOF_NOTE + "Xen-UNIX backed regions are not exercised (standard build only). File mapping coherence is the kernel's.",
         "technique": "Lean 4 loop-invariant proof (try_access refines a flat sparse array) + differential histories with a flat-array oracle",
@@ -121,7 +121,7 @@ META.update({
     "C06": {
         "text": "PARTIAL (hardware atomicity is trusted). Proved for all addresses and lengths: alignment() is the largest power of two dividing the address, the copy plan tiles [0,total) contiguously, every primitive access is naturally aligned on both sides, "
                 "an aligned 1/2/4/8-byte transfer is exactly ONE access of that width, > 8 bytes is one bulk copy (17 theorems). Tied through hook H1: the logged accesses of every funnelling entry point (19 buffer forms + 6 object forms at slice, region and guest-memory level, stream adapters) "
-                "for total 1..17 x src mod 8 x dst mod 8 exhaustively must equal the model's plan; oracle: aligned 1/2/4/8 => one access.",
+                "for total 1..17 x src mod 8 x dst mod 8 exhaustively must equal the model's plan; oracle: aligned 1/2/4/8 => one access; atomic load/store of every atomic type incl. packed user-defined AtomicAccess types at every base alignment in the slice world (misaligned must be refused).",
         "design_ref": "DESIGN.md 6/C06", "note": PROOF_NOTE + "What the CPU/compiler do with one volatile access is trusted; orderings of atomic load/store are std's.",
         "technique": "Lean 4 proof about the access plan + exhaustive trace comparison through a cfg-gated hook",
     },
@@ -136,29 +136,29 @@ META.update({
         "text": "PARTIAL (ArcSwap/Mutex atomicity trusted). Over ALL lists of atomic steps (every interleaving of any readers and updaters, every sequential history): a snapshot returns the map that was current at that step, "
                 "an owner keeps designating the same never-freed map across any number of replacements, after a completed replace every later snapshot shows it or a later one, the lock is exclusive and the published sequence is exactly "
                 "the enabled replaces in order (no lost replace), freed maps never come back (23 theorems). Tied by sequential histories over several handles/guards/owned Arcs on the real GuestMemoryAtomic "
-                "(map identity encoded in layout + contents, liveness via Weak), and in the thorough tier a reader/updater stress on real threads.",
+                "(map identity = a tag in memory, layouts repeat, alias maps over the same host memory, liveness via Weak), hook H4 (the new map is stored while the update mutex is held), timed probes of a second updater arriving through another handle while the lock is held (it must wait; when it gets the lock its own replacement must be visible), GuestAddressSpace for &M/Rc/Arc, and in the thorough tier a reader/updater stress on real threads.",
         "design_ref": "DESIGN.md 6/C11", "note": PROOF_NOTE + "ArcSwap's hazard/debt protocol and std Mutex are trusted to implement atomic load/store and mutual exclusion.",
         "technique": "Lean 4 invariant over all step lists + sequential differential run (+ thread stress)",
     },
     "C12": {
         "text": "PARTIAL (programs quantifier by corpus). For every history of create/build/insert/remove/clone/snapshot/drop in any order: an owned mapping is mapped iff some live handle reaches it, is unmapped exactly once when the last owner goes, "
-                "external mappings are never unmapped, no live handle designates an unmapped resource (13 theorems incl. reachable_inv over all histories). Tied by histories on file-backed regions over uniquely named files with /proc/self/maps read after every step "
-                "and every live handle re-read. The 'must not compile' half is decided by a corpus of 32 escaping-accessor programs + 8 controls compiled against /repo.",
+                "external mappings are never unmapped, no live handle designates an unmapped resource (reachable_inv over all histories); the same for the Xen mappings at the system-call level over a kernel-state model: after any history of constructions (any failing system calls) and drops in any order the kernel holds exactly what the live regions own, nothing is released twice (C12x.run_inv, history_no_fault, all_dropped_nothing_mapped) (25 theorems). Tied by histories on file-backed regions over uniquely named files with /proc/self/maps read after every step "
+                "and every live handle re-read; region sizes vary (page multiples, partial last page, sub-page), constructions that fail, owners dropped during unwinding; the executable's own mmap/munmap see a second release of one mapping; the xbuild world for Xen mappings. The 'must not compile' half is decided by a corpus of 32 escaping-accessor programs + 8 controls compiled against /repo.",
         "design_ref": "DESIGN.md 6/C12", "note": PROOF_NOTE + "No Lean model of the borrow checker: the corpus is a test, labelled as such.",
         "technique": "Lean 4 ownership invariant over all histories + /proc/self/maps differential run + compile-fail corpus",
     },
     "C15": {
-        "text": "PARTIAL (kernel file coherence observed, Xen half model-only in the quick tier). build() succeeds iff no MAP_FIXED, the file range neither overflows nor passes EOF and the kernel accepted; each error variant iff its cause in source precedence; "
-                "a built region reports exactly the request; a failed build never leaves a mapping; raw pointers must be page aligned; base+size beyond 2^64 refused; Xen flag words accepted iff in {0,1,2,0xa} for ALL 2^32 words (structural proof) (27 theorems). "
-                "Tied by requests around EOF/overflow boundaries, flag sets incl. MAP_FIXED, aligned/misaligned raw pointers, /proc/self/maps before/after failures, and pread/pwrite vs region bytes for shared file mappings.",
+        "text": "PARTIAL (kernel file coherence observed). build() succeeds iff no MAP_FIXED, the file range neither overflows nor passes EOF and the kernel accepted; each error variant iff its cause in source precedence; "
+                "a built region reports exactly the request; a failed build never leaves a mapping; raw pointers must be page aligned; base+size beyond 2^64 refused; Xen flag words accepted iff in {0,1,2,0xa} for ALL 2^32 words (structural proof); MmapRegion::from_range of the Xen build at the system-call level: a failed construction (refused request, failing mmap, failing ioctl, guest region past 2^64) leaves neither a mapping nor a grant mapping and releases nothing twice, a built region reports the request, fds_overlap = the file ranges intersect (50 theorems). "
+                "Tied by requests around EOF/overflow boundaries, flag sets incl. MAP_FIXED, aligned/misaligned raw pointers, /proc/self/maps before/after failures, pread/pwrite vs region bytes for shared file mappings (offsets up to 10 GiB), the older constructors (from_file/build/build_raw), a long-lived FileOffset whose file changes length, and in the xen-feature build the xbuild world: every flag word 0..0xffff, missing file, non-zero offset, MAP_FIXED, failing mmap/ioctl injected through hook H3 (this found defect D7, fixed).",
         "design_ref": "DESIGN.md 6/C15", "note": PROOF_NOTE + "The kernel is a parameter of the model.",
         "technique": "Lean 4 acceptance-condition theorems + differential run with an independent acceptance predicate and /proc/self/maps",
     },
     "C07": {
         "text": "For every public access/query entry point of slices (20 request kinds incl. all stream forms with ANY reader/writer kind and script), bitmaps (8) and guest memory (21), every operand value, under the constructor invariants, the model "
                 "result is proved not to be a panic; since plain + - * / , unwrap, indexing and asserts are modelled as panicking primitives this covers overflow in checked builds, division by zero and index/unwrap panics, and "
-                "checked/unchecked builds agree; termination is by Lean's totality with explicit measures and loop fuel proved sufficient; the documented index panics are stated exactly (27 theorems). "
-                "Tied by running every entry point with the boundary-heavy 64-bit operand distribution under catch_unwind in BOTH a release build and a build with overflow checks + debug assertions.",
+                "checked/unchecked builds agree; termination is by Lean's totality with explicit measures and loop fuel proved sufficient; the documented index panics are stated exactly; alignment() of a null address (defect D8, fixed) (31 theorems). "
+                "Tied by running every entry point with the boundary-heavy 64-bit operand distribution under catch_unwind in BOTH a release build and a build with overflow checks + debug assertions, in the standard and in the xen-feature build (zero-length sweep at window boundaries).",
         "design_ref": "DESIGN.md 6/C07", "note": PROOF_NOTE + "Allocation failure and stack overflow are not modelled.",
         "technique": "Lean 4 no-panic theorems over request enumerations + differential run in checked and unchecked builds",
     },
